@@ -637,7 +637,8 @@ impl Transaction {
 
     // calculate cumulative fee share in block
     pub fn generate_cumulative_fees(&mut self, cumulative_fees: Currency) -> Currency {
-        self.cumulative_fees = cumulative_fees + self.total_fees;
+        // saturating: amounts come from the wire, a wrapped sum would re-order the routing lottery
+        self.cumulative_fees = cumulative_fees.saturating_add(self.total_fees);
         self.cumulative_fees
     }
 
@@ -1058,7 +1059,7 @@ impl Transaction {
         // levels of fee-throughput.
         //
         if let TransactionType::BlockStake = self.transaction_type {
-            let mut total_stakes = 0;
+            let mut total_stakes: Currency = 0;
 
             for slip in self.to.iter() {
                 if !matches!(slip.slip_type, SlipType::BlockStake)
@@ -1069,7 +1070,8 @@ impl Transaction {
                 }
 
                 if matches!(slip.slip_type, SlipType::BlockStake) {
-                    total_stakes += slip.amount;
+                    // saturating: a wrapped sum would misjudge the requirement below
+                    total_stakes = total_stakes.saturating_add(slip.amount);
                 }
             }
 
